@@ -5,6 +5,8 @@
 (*   packed, bytes       Pack() succeeded / its octets                          *)
 (*   unpacked, msg2      Unpack(bytes) succeeded / its projection               *)
 (*   repacked, rebytes   Unpack(bytes).Pack()                                   *)
+(*   inputfree           msg2 reads the same after the buffer it was decoded     *)
+(*                       from was overwritten (rebytes is packed after that)     *)
 (*   reusedsame          Unpack(bytes) into a Msg that decoded a rich message    *)
 (*                       before projects to msg2 as well; heldsame: the message  *)
 (*                       decoded at start-up and held since still reads the same *)
@@ -33,6 +35,7 @@ Stage(e) ==        \* "ok" or the first clause the event violates
   ELSE IF ~e.rrsame THEN "packrr-octets"                \* PackRR, record by record, at offset 7 of such a buffer
   ELSE IF ~e.unpacked THEN "unpack-error"
   ELSE IF e.msg2 # NormMsg(m) THEN "unpack-fields"
+  ELSE IF ~e.inputfree THEN "unpack-aliases-input"       \* msg2 read again after the input buffer was overwritten
   ELSE IF ~e.reusedsame THEN "unpack-reused-fields"      \* a receiver that decoded another message before reads the same
   ELSE IF ~e.heldsame THEN "unpack-aliasing"             \* a message decoded earlier and still held did not change
   ELSE IF ~e.repacked THEN "repack-error"
